@@ -306,7 +306,7 @@ def run(ctx):
         ctx.cls("populations", "bundlify" if case.get("bundlify") else "plain-files")
         ctx.handle(case, fails)
 
-    core.run_given(ctx, population_and_queries(), body, ctx.n(340, 1800), label="c12-queries")
+    core.run_given(ctx, population_and_queries(), body, ctx.n(300, 1800), label="c12-queries")
     if ctx.evaluations >= 400:
         low = [c for c in REQUIRED_CLASSES if ctx.classes.get(c, 0) < 0.01 * ctx.evaluations]
         if low:
